@@ -401,13 +401,18 @@ inttype(unsigned long long val, bool decimal, char *end)
 	};
 	struct type *t;
 	size_t i, step;
+	char suffix[4];
 
+	/* lower-case a copy: the spelling may be shared with a macro definition and stringized later */
+	if (strlen(end) >= sizeof(suffix))
+		error(&tok.loc, "invalid integer constant suffix '%s'", end);
 	for (i = 0; end[i]; ++i)
-		end[i] = tolower(end[i]);
+		suffix[i] = tolower(end[i]);
+	suffix[i] = '\0';
 	for (i = 0; i < LEN(limits); ++i) {
-		if (strcmp(end, limits[i].end1) == 0)
+		if (strcmp(suffix, limits[i].end1) == 0)
 			break;
-		if (limits[i].end2 && strcmp(end, limits[i].end2) == 0)
+		if (limits[i].end2 && strcmp(suffix, limits[i].end2) == 0)
 			break;
 	}
 	if (i == LEN(limits))
